@@ -72,6 +72,22 @@ TraceDKG ==
                       Dot(s.M[rs[a]], Ev.pvv[K(i)]) = Add(Ev.sub[K(i)][K(j)][a], Mul(Ev.eta, Ev.blind[K(i)][K(j)][a]))
   /\ ShardsMatch(Ev.shards, ep')
 
+\* the same key generations through the networked runner API: only the outputs are visible; they must be one consistent key
+TraceDKGRun ==
+  /\ IsEv("dkgRun")
+  /\ Ev.ok
+  /\ LET s == AnyShard(Ev.shards) IN
+       /\ MSPRealises(s.M, s.lab, Ev.pol)
+       /\ Deal(Ev.pol, s.M, s.lab, s.vv)
+  /\ ShardsMatch(Ev.shards, ep')
+
+\* stored and reloaded key material is unchanged (same bytes, Equal, and the same projected values)
+TraceReload ==
+  /\ IsEv("reload")
+  /\ Ev.ok /\ Ev.same
+  /\ ShardsMatch(Ev.shards, ep)
+  /\ UNCHANGED <<ep, prevEp, pend, x0>>
+
 \* a refused dealing must be one the library may refuse: never for a policy with >= 2 holders none of which is
 \* qualified alone (one-column programmes are refused by design)
 TraceDealRefused ==
@@ -191,7 +207,7 @@ TraceSign ==
 
 TraceHdr == IsEv("hdr") /\ UNCHANGED <<ep, prevEp, pend, x0>>
 
-TraceNext == TraceHdr \/ TraceReset \/ TraceDeal \/ TraceDKG \/ TraceSign \/ TraceDealRefused \/ TraceR1 \/ TraceRefused \/ TraceR2 \/ TraceR3
+TraceNext == TraceHdr \/ TraceReset \/ TraceDeal \/ TraceDKG \/ TraceDKGRun \/ TraceReload \/ TraceSign \/ TraceDealRefused \/ TraceR1 \/ TraceRefused \/ TraceR2 \/ TraceR3
              \/ TraceReconstruct \/ TraceMix
 TraceInit == Init /\ l = 1
 TraceSpec == TraceInit /\ [][TraceNext]_tvars
